@@ -283,11 +283,76 @@ def queue_model(ctx, repo, rule):
     ctx.ob(rule, f"{QUEUE_CLS}.pop::sync", not pop.is_async and not any(n.suspends for n in cfg_of(pop).nodes), f"{QUEUE_CLS}.pop suspends", pop.loc)
 
 
+def acceptance_by_complete_verb(ctx, repo, rule):
+    """can_handle of every verb consumer, interpreted on adversarial datagrams derived from the verbs the library emits:
+    every proper prefix of every verb (the empty datagram included), every verb with its last byte replaced, a verb
+    stem followed by another verb's last byte, and the bare framing tags.  None of them is the consumer's verb, so none
+    may be claimed: such a datagram must fall to the discard consumer (a consumer that accepts it decodes fields that
+    are not there - it dies, or acknowledges traffic that was never sent)."""
+    from ..absint import Interp, PyRaise, Undecided
+    from .c04 import CATCH_ALL, SENDER, build_message, can_handle, fresh_handler, handler_classes, message_table, wire_of
+    from ..symbytes import SymBytes
+    interp = Interp(repo, max_depth=10)
+    classes = [c for c in handler_classes(repo) if c.short not in CATCH_ALL]
+    verbs = set()
+    for cname, builder, args, _expect, _desc in message_table():
+        try:
+            w = wire_of(build_message(repo, interp, cname, builder, args))
+        except (PyRaise, Undecided):
+            continue
+        if w is None:
+            continue
+        cells = SymBytes.of(w).cells[:5]
+        if len(cells) == 5 and all(isinstance(x, int) for x in cells) and not bytes(cells).startswith(b"<"):
+            verbs.add(bytes(cells))
+    # ... and the verbs the protocol modules name as constants (STATQ is only ever sent from inside a decoder)
+    import ast as _ast
+    for m in repo.all_mods():
+        if not m.rel.startswith("src/geckolib/driver/protocol/"):
+            continue
+        for st in m.tree.body:
+            if isinstance(st, _ast.Assign) and isinstance(st.value, _ast.Constant) and isinstance(st.value.value, bytes) and len(st.value.value) == 5 and st.value.value.isalpha():
+                verbs.add(st.value.value)
+    ctx.floor(rule, "verbs emitted by the builders or named by the protocol modules", len(verbs), 22)
+    probes = {b""}
+    lasts = {v[4:] for v in verbs}
+    for v in verbs:
+        for k in range(1, 5):
+            probes.add(v[:k])
+        for other in (b"?", b"\x00") + tuple(lasts):
+            cand = v[:4] + other
+            if cand not in verbs:
+                probes.add(cand)
+                probes.add(cand + b"\x01\x00\x00\x00\x27")
+    probes |= {b"<PACKT>", b"<HELLO>", b"</PACKT>", b"</HELLO>", b"<PACK", b"<HELL"}
+    n = 0
+    for c in classes:
+        claimed = []
+        for pr in sorted(probes):
+            try:
+                if can_handle(repo, interp, c, fresh_handler(repo, interp, c), pr):
+                    claimed.append(pr)
+            except PyRaise as e:
+                claimed.append(pr + b" (raises " + e.what.encode() + b")")
+            except Undecided as e:
+                from ..core import AnalysisError
+                raise AnalysisError(f"{c.short}.can_handle on {pr!r}: {e}")
+            n += 1
+        ctx.ob(rule, f"{c.short}.can_handle::claims-only-complete-verbs", not claimed,
+               f"{c.short}.can_handle claims (or raises on) {len(claimed)} datagram(s) that carry none of the library's verbs, e.g. {claimed[:3]}: "
+               f"a truncated or unknown verb is taken by a consumer that does not accept it instead of being discarded as unhandled", repo.method(c.short, "can_handle").loc,
+               sample={"rule": rule, "class": c.short, "probes": len(probes), "claimed": [repr(x) for x in claimed[:5]]})
+    ctx.count(f"{rule}:can_handle probes", n)
+    ctx.floor(rule, "can_handle probes", n, 12 * 100)
+
+
 def check_queue_class(ctx, repo):
     c = repo.cls(QUEUE_CLS)
     queue_model(ctx, repo, "R3")
     ctx.rule("R7", "head-of-line: one pass of the discard consumer, interpreted on a real peekable queue, removes a datagram nobody claimed after one mark-and-wait interval whether the request lock is free or held, and removes nothing when the marked datagram was taken meanwhile")
     discard_consumer_model(ctx, repo, "R7")
+    ctx.rule("R8", "acceptance is by complete verb: no verb consumer claims a datagram that is a truncated verb, an unknown verb sharing a stem with a known one, or a bare framing tag (can_handle of every handler class interpreted on the derived probe set)")
+    acceptance_by_complete_verb(ctx, repo, "R8")
     # the mark flag has no other writer in the package
     writers = []
     for fi in repo.all_functions():
